@@ -94,7 +94,7 @@ fn classify(out: &[u8]) -> (String, bool) {
 
 fn in_process(st: &mut Stats, quick: bool) {
     let client4: IpAddr = "127.0.0.5".parse().unwrap();
-    let lists: Vec<Vec<&str>> = vec![vec![], vec!["127.0.0.5"], vec!["10.9.9.9"], vec!["127.0.0.5", "::1"], vec!["203.0.113.50", "2001:db8::bad"]];
+    let lists: Vec<Vec<&str>> = vec![vec![], vec!["127.0.0.5"], vec!["10.9.9.9"], vec!["127.0.0.5", "::1"], vec!["203.0.113.50", "2001:db8::bad"], vec!["::1", "127.0.0.5", "10.9.9.9"], vec!["203.0.113.50", "127.0.0.5", "127.0.0.1"]];
     let peers = ["127.0.0.1", "127.0.0.5", "::1"];
     let xffs: Vec<Option<&str>> = vec![
         None,
